@@ -24,6 +24,7 @@ func main() {
 	verif := flag.String("verif", "/verif", "verification directory (evidence, reports, known findings)")
 	only := flag.String("only", "", "replay: print only the obligation with this key")
 	selftest := flag.Bool("selftest", false, "run the positive fixtures only")
+	dump := flag.String("dump", "", "debug: print shapes / skeleton source (shapes|skeleton:<variant>|ts)")
 	flag.Parse()
 	if *tier == "" {
 		*tier = os.Getenv("VERIF_TIER")
@@ -37,6 +38,16 @@ func main() {
 	}
 	if *selftest {
 		os.Exit(runSelfTests(true))
+	}
+	if *dump != "" {
+		c, err := loadRepo(*repo)
+		if err != nil {
+			fmt.Println(err)
+			os.Exit(2)
+		}
+		c.Tier = *tier
+		dumpStaged(c, *dump)
+		return
 	}
 	if *prop == "" {
 		fmt.Println("usage: yaccverif -prop Cxx [-tier quick|thorough]")
@@ -122,4 +133,48 @@ func trimStack(b []byte) string {
 		lines = lines[:24]
 	}
 	return strings.Join(lines, "\n")
+}
+
+func dumpStaged(c *Ctx, what string) {
+	st := c.GetStaged()
+	for _, e := range st.Errs {
+		fmt.Println("staged error:", e)
+	}
+	if what == "ts" {
+		for _, e := range st.TS.Errs {
+			fmt.Println("ts error:", e)
+		}
+		for fv, sh := range st.TS.Eval.fields {
+			fmt.Printf("TS field %s = %s\n\n", fv.Name(), shapeString(sh))
+		}
+		for _, w := range st.TS.Eval.writes {
+			fmt.Println("write", w.Name())
+		}
+		return
+	}
+	for _, sc := range st.Configs {
+		for _, e := range sc.Errs {
+			fmt.Println(sc.V.Name, "error:", e)
+		}
+		if what == "shapes" {
+			fmt.Println("=====", sc.V.Name, "template", sc.TemplVar)
+			for fv, sh := range sc.Eval.fields {
+				fmt.Printf("field %s = %s\n\n", fv.Name(), shapeString(sh))
+			}
+			for fv, p := range sc.Eval.fieldsP {
+				fmt.Printf("field %s ← %s\n", fv.Name(), p)
+			}
+		}
+		if strings.HasPrefix(what, "skeleton:") && strings.TrimPrefix(what, "skeleton:") == sc.V.Name {
+			for _, sk := range sc.Skels {
+				fmt.Println(sk.Src)
+				fmt.Println("parse error:", sk.ParseEr)
+				for _, e := range sk.TypeErs {
+					fmt.Println("type error:", e)
+				}
+				break
+			}
+		}
+	}
+	fmt.Println(st.Summary())
 }
